@@ -121,7 +121,9 @@ func runC46(c *core.Ctx) {
 	qo := core.PathQ{Fn: rec, Via: func(in ssa.Instruction) bool {
 		cc := core.CallOf(in)
 		return cc != nil && core.CallDesc(cc).Name == "saveEpochByHash"
-	}, Target: func(in ssa.Instruction, _ *ssa.BasicBlock) bool { return core.IsCall(in, pkg, "historyRepository", "putMiniblockMetadata") }}
+	}, Target: func(in ssa.Instruction, _ *ssa.BasicBlock) bool {
+		return core.IsCall(in, pkg, "historyRepository", "putMiniblockMetadata")
+	}}
 	escO, _ := qo.Escape()
 	c.Check(escO == nil, "C46/metadata-written", "historyRepository.recordMiniblock/index-before-metadata", rec.Pos(), "saveEpochByHash(miniblock) precedes putMiniblockMetadata",
 		"the miniblock metadata can be written before its epoch index entry: a concurrent notarization notification looks the miniblock up in the old epoch, patches the orphaned record and is then discarded")
